@@ -711,6 +711,20 @@ func voxelRange(blockSize, begBlock, endBlock, begVoxel, endVoxel int32) (int32,
 // GetMask returns a binary volume of subvol size where each element is 1 if inside the ROI
 // and 0 if outside the ROI.
 func (d *Data) GetMask(ctx *datastore.VersionedCtx, subvol *dvid.Subvolume) ([]byte, error) {
+	// Check the requested size per dimension, computing the number of voxels without overflow.
+	size := subvol.Size()
+	numVoxels := int64(1)
+	for dim := uint8(0); dim < size.NumDims(); dim++ {
+		n := int64(size.Value(dim))
+		if n <= 0 {
+			return nil, fmt.Errorf("illegal mask size requested: %s", size)
+		}
+		if numVoxels > server.MaxDataRequest/n {
+			return nil, fmt.Errorf("requested mask of size %s exceeds this DVID server's set limit (%d bytes)", size, server.MaxDataRequest)
+		}
+		numVoxels *= n
+	}
+
 	pt0 := subvol.StartPoint()
 	pt1 := subvol.EndPoint()
 	// Use floor division (Chunk) so negative voxel coordinates map to the correct block.
@@ -732,8 +746,7 @@ func (d *Data) GetMask(ctx *datastore.VersionedCtx, subvol *dvid.Subvolume) ([]b
 	}
 
 	// Allocate the mask volume.
-	data := make([]uint8, subvol.NumVoxels())
-	size := subvol.Size()
+	data := make([]uint8, numVoxels)
 	nx := size.Value(0)
 	nxy := size.Value(1) * nx
 
